@@ -22,22 +22,25 @@ UField(up) == [k \in 1..3 |-> [c \in Cells |->
                  ((up[1] * c[1] + up[2] * c[2] + up[3] * c[3] + up[4] * k + c[1] * c[2] * k) % 5) - 2]]
 Imp(k0, c0) == [k \in 1..3 |-> [c \in Cells |-> IF k = k0 /\ c = c0 THEN 1 ELSE 0]]
 
-Init == \E k \in 1..3, c0 \in Cells, up \in UPatterns, p \in {2, 4} : cs = [k |-> k, c0 |-> c0, up |-> up, p |-> p]
-Next == UNCHANGED cs
+\* two levels so that TLC's workers share the cases (initial states are processed sequentially):
+\* p = 0 marks a case whose step size has not been chosen yet
+Init == \E k \in 1..3, c0 \in Cells, up \in UPatterns : cs = [k |-> k, c0 |-> c0, up |-> up, p |-> 0]
+Next == cs.p = 0 /\ \E p \in {2, 4} : cs' = [cs EXCEPT !.p = p]
 Spec == Init /\ [][Next]_cs
 
 Om == Imp(cs.k, cs.c0)
 U  == UField(cs.up)
 P3 == IF ThirdStageHalf THEN cs.p \div 2 ELSE cs.p
 
-SspIsPoly == SSPRK3x12(Om, U, cs.p, P3) = Poly3x12(Om, U, cs.p)
+SspIsPoly == cs.p # 0 => LET om == TLCEval(Om) u == TLCEval(U) IN SSPRK3x12(om, u, cs.p, P3) = Poly3x12(om, u, cs.p)
 
 \* Euler forward is affine in the step it is given (no hidden rescaling of the step)
-EulerLinearInStep ==
-    LET e1 == StretchEuler(Om, U, cs.p)
-        e2 == StretchEuler(Om, U, 2 * cs.p)
+EulerLinearInStep == cs.p # 0 =>
+    LET om == TLCEval(Om) u == TLCEval(U)
+        e1 == StretchEuler(om, u, cs.p)
+        e2 == StretchEuler(om, u, 2 * cs.p)
     IN  \A k \in 1..3 : \A c \in Cells : e2[k][c] - Om[k][c] = 2 * (e1[k][c] - Om[k][c])
 
 \* vacuity: the cubic term must matter somewhere (A^3 omega /= 0 for some case)
-CubicVanishes == LET a3 == A(A(A(Om, U, 1), U, 1), U, 1) IN \A k \in 1..3 : \A c \in Cells : a3[k][c] = 0
+CubicVanishes == cs.p # 0 => LET om == TLCEval(Om) u == TLCEval(U) a3 == A(TLCEval(A(TLCEval(A(om, u, 1)), u, 1)), u, 1) IN \A k \in 1..3 : \A c \in Cells : a3[k][c] = 0
 =============================================================================
